@@ -1,10 +1,14 @@
 import Driver.Util
-import RxnModel.Model.Lsm
+import RxnModel.Model.LsmCode
 /-!
 Driver section for C07/C18/C08-style traces of the real `dkv.DB`.
 Input lines are `op ## impl-output` (trace validation): the implementation's output tells which background
 action actually happened; everything the model can derive itself (read results, enabledness, safety of a change
 set) is recomputed and printed, and compared with the implementation by the harness.
+
+Reads are computed with the table selection of `dkv/sst/level_list.go` (`Rescale.getR`, `getBResultR`,
+`Rescale.scanR`, `scanPhase1`/`scanResume`: `SearchUnique` over `RangeKeyCompare`, `AllTablesForPrefix` with its
+binary search and forward walk) — the definitions the `*_code` theorems of `Props/C07.lean` are about.
 -/
 namespace Driver.C07
 open Rxn Driver Rxn.Lsm
@@ -19,6 +23,13 @@ structure St where
   /-- a `ScanPrefix` between its two phases: prefix and the merged memtable entries taken in the first phase
   (`DB.ScanPrefix` builds the memtable iterator first, then snapshots the sstables) -/
   scanning : Option (Bytes × Run) := none
+  /-- a `ScanPrefix` iterator obtained (both snapshots taken at the call) and not yet consumed: prefix and the
+  result fixed at the call -/
+  held : Option (Bytes × Run) := none
+
+/-- a foreground read is in flight (parked between its phases, or an iterator is held unconsumed): reads and writes
+share one goroutine, so no other foreground operation happens -/
+def St.busy (st : St) : Bool := st.s.reading.isSome || st.scanning.isSome || st.held.isSome
 
 def showAnswer : Option Bytes → String
   | some v => "val " ++ toHex v
@@ -60,7 +71,7 @@ def applyActs (st : St) (acts : List Act) : Option St :=
   | none => none
 
 def writeOp (st : St) (a : Act) (hint : List String) : St × String :=
-  if st.s.reading.isSome || st.scanning.isSome then (st, "reader-busy") else
+  if st.busy then (st, "reader-busy") else
   if st.flushQ ≥ 4 then (st, "queue-full") else
   let rot := hint == ["rot=1"]
   match applyActs st (if rot then [a, .rotate] else [a]) with
@@ -73,16 +84,16 @@ def step (st : St) (ws : List String) : St × String :=
   | ["put", k, v] => writeOp st (.put (hexOr k) (hexOr v)) hint
   | ["del", k] => writeOp st (.del (hexOr k)) hint
   | ["get", k] =>
-    if st.s.reading.isSome || st.scanning.isSome then (st, "reader-busy") else
-    (st, withSpec (showAnswer (answer (get st.s (hexOr k)))) (showAnswer (answer (Spec.get st.spec (hexOr k)))))
+    if st.busy then (st, "reader-busy") else
+    (st, withSpec (showAnswer (answer (Rescale.getR st.s (hexOr k)))) (showAnswer (answer (Spec.get st.spec (hexOr k)))))
   | ["scan", p] =>
-    if st.s.reading.isSome || st.scanning.isSome then (st, "reader-busy") else
-    (st, withSpec (showScan (scan st.s (hexOr p))) (showScan (specScan st.spec (hexOr p))))
+    if st.busy then (st, "reader-busy") else
+    (st, withSpec (showScan (Rescale.scanR st.s (hexOr p))) (showScan (specScan st.spec (hexOr p))))
   | ["scanpark", p] =>
-    if st.s.reading.isSome || st.scanning.isSome then (st, "reader-busy") else
-    ({ st with scanning := some (hexOr p, mergeAll (st.s.mems.map (prefixRun (hexOr p)))) }, "parked")
+    if st.busy then (st, "reader-busy") else
+    ({ st with scanning := some (hexOr p, scanPhase1 st.s (hexOr p)) }, "parked")
   | ["getpark", k] =>
-    if st.s.reading.isSome || st.scanning.isSome then (st, "reader-busy") else
+    if st.busy then (st, "reader-busy") else
     match applyActs st [.getA (hexOr k)] with
     | some st' =>
       match st'.s.reading with
@@ -92,16 +103,22 @@ def step (st : St) (ws : List String) : St × String :=
         (st'', withSpec ("done " ++ showAnswer (answer (some e))) ("done " ++ showAnswer (answer (Spec.get st.spec (hexOr k)))))
       | _ => (st', "parked")
     | none => ({ st with bad := true }, "disabled")
+  | ["scanget", p] =>
+    if st.busy then (st, "reader-busy") else
+    ({ st with held := some (hexOr p, Rescale.scanR st.s (hexOr p)) }, "held")
+  | ["scanrun"] =>
+    match st.held with
+    | some (p, res) => ({ st with held := none }, withSpec (showScan res) (showScan (specScan st.spec p)))
+    | none => (st, "no-iter")
   | ["resume"] =>
     match st.scanning with
     | some (p, memRun) =>
-      let raw := merge2 memRun (mergeAll ((st.s.levels.flatten).map (·.scan p)))
-      ({ st with scanning := none }, withSpec (showScan (raw.filter (fun e => !e.del))) (showScan (specScan st.spec p)))
+      ({ st with scanning := none }, withSpec (showScan (scanResume memRun st.s.levels p)) (showScan (specScan st.spec p)))
     | none =>
     match st.s.reading with
     | none => (st, "no-reader")
     | some (k, _) =>
-      let res := getBResult st.s
+      let res := getBResultR st.s
       match applyActs st [.getB] with
       | some st' => (st', withSpec (showAnswer (answer res)) (showAnswer (answer (Spec.get st.spec k))))
       | none => ({ st with bad := true }, "disabled")
